@@ -1,3 +1,83 @@
 package main
 
-func selfTestImpl(prop, dir string) any { return nil }
+import (
+	"fmt"
+	"os"
+	"os/exec"
+	"strings"
+	"sync"
+)
+
+type mutantResult struct {
+	ID      string   `json:"id"`
+	Why     string   `json:"breaks"`
+	Expect  string   `json:"expected_rule"`
+	Outcome string   `json:"outcome"` // detected | detected-by-other-rule | MISSED | stale | does-not-compile
+	Hits    []string `json:"fired,omitempty"`
+}
+
+// selfTestImpl runs the mutation self-test of one property: every mutant in its own process (the analysis of a
+// mutated program never shares state with the real one), at most six at a time.
+func selfTestImpl(prop, dir string) any {
+	exe, err := os.Executable()
+	if err != nil {
+		return map[string]any{"error": err.Error()}
+	}
+	var ms []mutant
+	for _, m := range mutants {
+		if m.Prop == prop {
+			ms = append(ms, m)
+		}
+	}
+	res := make([]mutantResult, len(ms))
+	sem := make(chan struct{}, 6)
+	var wg sync.WaitGroup
+	for i, m := range ms {
+		wg.Add(1)
+		go func(i int, m mutant) {
+			defer wg.Done()
+			sem <- struct{}{}
+			defer func() { <-sem }()
+			cmd := exec.Command(exe, "-property", prop, "-dir", dir, "-mutant", m.File+"::"+m.Old+"::"+m.New)
+			out, _ := cmd.CombinedOutput()
+			r := mutantResult{ID: m.ID, Why: m.Why, Expect: m.Expect}
+			text := string(out)
+			switch {
+			case strings.Contains(text, "MUTANT-STALE"):
+				r.Outcome = "stale"
+			case strings.Contains(text, "MUTANT-NOCOMPILE"):
+				r.Outcome = "does-not-compile"
+			default:
+				for _, l := range strings.Split(text, "\n") {
+					if strings.HasPrefix(l, "MUTANT-HIT ") {
+						f := strings.Fields(l)
+						if len(f) >= 3 {
+							r.Hits = append(r.Hits, f[2])
+						}
+					}
+				}
+				r.Outcome = "MISSED"
+				for _, h := range r.Hits {
+					if strings.Contains(h, m.Expect) {
+						r.Outcome = "detected"
+					}
+				}
+				if r.Outcome == "MISSED" && len(r.Hits) > 0 {
+					r.Outcome = "detected-by-other-rule"
+				}
+				if len(r.Hits) > 4 {
+					r.Hits = r.Hits[:4]
+				}
+			}
+			res[i] = r
+		}(i, m)
+	}
+	wg.Wait()
+	cnt := map[string]int{}
+	for _, r := range res {
+		cnt[r.Outcome]++
+		fmt.Printf("selftest %s %s (%s)\n", r.ID, r.Outcome, r.Expect)
+	}
+	return map[string]any{"mutants": len(res), "outcomes": cnt, "results": res,
+		"method": "each mutant is a source edit applied via packages.Config.Overlay to the current /repo tree and analysed in its own process; it must type-check and make the named rule instance fire"}
+}
